@@ -45,6 +45,9 @@ def scenarios(tier):
     # numbers) come and go with the workers, and a descriptor number is reused by the next worker of either watcher
     for pat in ('first-stubborn', 'stubborn'):
         out.append(Scenario('acct', pat=pat, hook=None, fault=None, tier=tier, streams=True))
+    # workers that are still there for an instant after their SIGKILL: whoever forgets them right away leaves their
+    # collection to the next periodic check
+    out.append(Scenario('acct', pat='stubborn-lag', hook=None, fault=None, tier=tier))
     return out
 
 
